@@ -143,6 +143,20 @@ CLAIMS = {
               "planning on the arrays uses probabilities from {0,1/2,1}. Two defects found by this check were repaired in /repo "
               "(WindyGridWorld default feature_rewards=None; goal that cuts the grid)."),
         ref='DESIGN.md section 4 C20'),
+    'C15': dict(
+        text=("augment() is executed for ALL 2^7 subsets of overridden components (2^5 for a non-tabular base) on a base MDP whose "
+              "discount rate and rewards are symbolic: z3 proves that every non-overridden component of the derived MDP returns "
+              "the same terms as the base (discount rate, lists, and the five functions on all arguments) and every overridden one "
+              "the override. PlanToSubgoalOption.sub_task: base discount and transitions, rewards clipped by the symbolic cap "
+              "exactly on transitions into non-terminal states, absorbing set per the include flag. Option.run_on under a "
+              "nondeterministic generator: ends exactly at the first terminal state with real transitions and base rewards, or "
+              "raises AlgorithmException. SemiMDP: option outcome distribution normalised and equal (frequency and reward mass per "
+              "(end state, steps)) to the empirical distribution recomputed from its own (spied) simulations with the symbolic "
+              "discount; primitive actions give one-step outcomes with duration 1."),
+        note=("skeletons of 1-4 states; option policies {first, last, uniform}; step limits 2,4 (quick) 1..5 (thorough); 1-2 "
+              "simulations; roll-outs that hit the limit are cut. Two defects found by this check were repaired in /repo "
+              "(augment lost the discount rate; SemiMDP.actions tuple+list)."),
+        ref='DESIGN.md section 4 C15'),
     'C11': dict(
         text=("For every support size within the bound and every distribution kind, the probability-calculus laws are "
               "proved for ALL probability/weight/score values at once (symbolic reals, zero entries included), by running "
